@@ -85,6 +85,13 @@ Print Assumptions C12_compute_order_v0_refuted.
 (* 6. tie by translation: updatesSortIndex.Less regenerated from update.go on every run is [less] *)
 Theorem C12_generated_less_is_model : forall a b, GenAnnotate.gen_less_index a b = less a b.
 Proof. exact GenOk.gen_less_index_ok. Qed.
+
+(* The determinism theorems are about a model that handles the children one after the other (in
+   any order).  The code reachable from core.Compute / annotate.Ways / annotate.Relations contains
+   no go statement, channel, select, sync or sync/atomic use (counted by the translator on every
+   run): it is sequential code, the only nondeterminism is the one modelled (map order, sort). *)
+Theorem C12_annotation_code_is_sequential : GenAnnotate.gen_concurrent_constructs = 0%Z.
+Proof. exact GenOk.gen_sequential_ok. Qed.
 Print Assumptions C12_generated_less_is_model.
 
 (* non-vacuity: a concrete history meeting every hypothesis of theorems 1-3, two different sort
